@@ -113,7 +113,14 @@ fn import_sequence_node_fields(
 
         if tag_name == "sequence" {
             // nested sequence
-            return import_sequence_node_fields(&mut child, doc, base_fields);
+            import_sequence_node_fields(&mut child, doc, base_fields)?;
+            continue;
+        }
+
+        // this function is also called with an <extension> node, whose attributes and attribute groups are not
+        // part of the sequence
+        if matches!(tag_name, "attribute" | "attributeGroup" | "anyAttribute") {
+            continue;
         }
 
         // regular field
